@@ -285,7 +285,13 @@ class RankedToFirstNPreferences:
         output = collections.defaultdict(int)
         for ranking, n_votes in votes.items():
             if ranking:
-                output[frozenset(ranking[:self.n_first])] += n_votes
+                approved = set()
+                for positioned in ranking[:self.n_first]:
+                    if isinstance(positioned, collections.abc.Set):
+                        approved.update(positioned)
+                    else:
+                        approved.add(positioned)
+                output[frozenset(approved)] += n_votes
         return dict(output)
 
 
